@@ -22,7 +22,7 @@ section SL
 variable (s : State) (out auto : Bool)
 
 /-- one Counter entry of the page of webentity `src` -/
-def slowInner (src : Nat) (acc : List NetRow × List (Nat × Nat)) (tw : Nat × Nat) : List NetRow × List (Nat × Nat) :=
+def cdSlowInner (src : Nat) (acc : List NetRow × List (Nat × Nat)) (tw : Nat × Nat) : List NetRow × List (Nat × Nat) :=
   let (tWe, cache) := match dictGet? acc.2 tw.1 with
     | some w => (w, acc.2)
     | none => let w := s.windupWe tw.1; (w, if w = 0 then acc.2 else dictSet acc.2 tw.1 w)
@@ -31,13 +31,13 @@ def slowInner (src : Nat) (acc : List NetRow × List (Nat × Nat)) (tw : Nat × 
   else (netTouch acc.1 src (fun r => { r with targets := counterAdd r.targets tWe tw.2 }), cache)
 
 /-- one node of the walk -/
-def slowStep (acc : List NetRow × List (Nat × Nat)) (bw : Nat × Nat) : List NetRow × List (Nat × Nat) :=
+def cdSlowStep (acc : List NetRow × List (Nat × Nat)) (bw : Nat × Nat) : List NetRow × List (Nat × Nat) :=
   let c := s.cell bw.1
   let head := if out then c.out else c.inn
   if !c.flags.page || head = 0 || bw.2 = 0 then acc else
-  (s.weighted head).foldl (slowInner s auto bw.2) (acc.1, dictSet acc.2 bw.1 bw.2)
+  (s.weighted head).foldl (cdSlowInner s auto bw.2) (acc.1, dictSet acc.2 bw.1 bw.2)
 
-theorem networkSlow_eq : s.networkSlow out auto = (s.dfsWe.foldl (slowStep s out auto) ([], [])).1 := rfl
+theorem cd_networkSlow_eq : s.networkSlow out auto = (s.dfsWe.foldl (cdSlowStep s out auto) ([], [])).1 := rfl
 
 def slFuel (q : SlowSt) : Nat := (s.trie.size + 2) * (s.links.size + 3) + q.stack.length + q.curList.length + 4
 
@@ -62,7 +62,7 @@ theorem sl_list (F : List NetRow × List (Nat × Nat) → Ans) (B Y : Nat) (hB :
       L.length + B + 1 ≤ fuel → L.length + Y < N →
       slR s fuel N { out := out, auto := auto, started := true, stack := stack, pend := pend, cache := cache,
                      curSrc := src, curList := L, graph := graph } =
-        F (L.foldl (slowInner s auto src) (graph, cache)) := by
+        F (L.foldl (cdSlowInner s auto src) (graph, cache)) := by
   intro L
   induction L with
   | nil =>
@@ -79,11 +79,11 @@ theorem sl_list (F : List NetRow × List (Nat × Nat) → Ans) (B Y : Nat) (hB :
       by_cases h0 : x = 0
       · have := ih graph cache k N (by omega) (by omega)
         simp only [slR, slowResume, hget, h0, if_true] at this ⊢
-        simpa [slowInner, hget, h0] using this
+        simpa [cdSlowInner, hget, h0] using this
       · by_cases ha : (!auto && src = x) = true
         · have := ih graph cache k N (by omega) (by omega)
           simp only [slR, slowResume, hget, h0, if_false, ha, if_true] at this ⊢
-          simpa [slowInner, hget, h0, ha] using this
+          simpa [cdSlowInner, hget, h0, ha] using this
         · obtain ⟨N', rfl⟩ : ∃ N', N = N' + 1 := ⟨N - 1, by omega⟩
           have := ih (netTouch graph src (fun r => { r with targets := counterAdd r.targets x w })) cache
             (slFuel s { out := out, auto := auto, started := true, stack := stack, pend := pend, cache := cache,
@@ -92,16 +92,16 @@ theorem sl_list (F : List NetRow × List (Nat × Nat) → Ans) (B Y : Nat) (hB :
             (by simp only [slFuel]; omega) (by omega)
           simp only [slR, slowResume, hget, h0, if_false, ha, Bool.false_eq_true]
           rw [drain_sl_unfold, this]
-          simp [slowInner, hget, h0, ha]
+          simp [cdSlowInner, hget, h0, ha]
     | none =>
       by_cases h0 : s.windupWe t = 0
       · have := ih graph cache k N (by omega) (by omega)
         simp only [slR, slowResume, hget, h0, if_true] at this ⊢
-        simpa [slowInner, hget, h0] using this
+        simpa [cdSlowInner, hget, h0] using this
       · by_cases ha : (!auto && src = s.windupWe t) = true
         · have := ih graph (dictSet cache t (s.windupWe t)) k N (by omega) (by omega)
           simp only [slR, slowResume, hget, h0, if_false, ha, if_true] at this ⊢
-          simpa [slowInner, hget, h0, ha] using this
+          simpa [cdSlowInner, hget, h0, ha] using this
         · obtain ⟨N', rfl⟩ : ∃ N', N = N' + 1 := ⟨N - 1, by omega⟩
           have := ih (netTouch graph src (fun r => { r with targets := counterAdd r.targets (s.windupWe t) w }))
             (dictSet cache t (s.windupWe t))
@@ -111,9 +111,9 @@ theorem sl_list (F : List NetRow × List (Nat × Nat) → Ans) (B Y : Nat) (hB :
             (by simp only [slFuel]; omega) (by omega)
           simp only [slR, slowResume, hget, h0, if_false, ha, Bool.false_eq_true]
           rw [drain_sl_unfold, this]
-          simp [slowInner, hget, h0, ha]
+          simp [cdSlowInner, hget, h0, ha]
 
-theorem walkGo_length_le : ∀ (fuel i : Nat), (s.walkGo fuel i).length ≤ fuel := by
+theorem cd_walkGo_length_le : ∀ (fuel i : Nat), (s.walkGo fuel i).length ≤ fuel := by
   intro fuel
   induction fuel with
   | zero => intro i; simp [walkGo]
@@ -128,7 +128,7 @@ theorem walkGo_length_le : ∀ (fuel i : Nat), (s.walkGo fuel i).length ≤ fuel
       · have := ih st.prev; omega
       · simp
 
-theorem countInto_length_le (acc : List (Nat × Nat)) (t : Nat) : (countInto acc t).length ≤ acc.length + 1 := by
+theorem cd_countInto_length_le (acc : List (Nat × Nat)) (t : Nat) : (countInto acc t).length ≤ acc.length + 1 := by
   induction acc with
   | nil => simp [countInto]
   | cons p rest ih =>
@@ -136,7 +136,7 @@ theorem countInto_length_le (acc : List (Nat × Nat)) (t : Nat) : (countInto acc
     unfold countInto
     split <;> simp <;> omega
 
-theorem weighted_length_le (head : Nat) : (s.weighted head).length ≤ s.links.size + 1 := by
+theorem cd_weighted_length_le (head : Nat) : (s.weighted head).length ≤ s.links.size + 1 := by
   have key : ∀ (l : List Nat) (acc : List (Nat × Nat)), (l.foldl countInto acc).length ≤ acc.length + l.length := by
     intro l
     induction l with
@@ -144,11 +144,11 @@ theorem weighted_length_le (head : Nat) : (s.weighted head).length ≤ s.links.s
     | cons x xs ih =>
       intro acc
       have h1 := ih (countInto acc x)
-      have h2 := countInto_length_le acc x
+      have h2 := cd_countInto_length_le acc x
       simp only [List.foldl_cons, List.length_cons]
       omega
   have h1 := key (s.walk head) []
-  have h2 := walkGo_length_le s (s.links.size + 1) head
+  have h2 := cd_walkGo_length_le s (s.links.size + 1) head
   simp only [weighted, walk, List.length_nil] at h1 h2 ⊢
   omega
 
@@ -175,13 +175,13 @@ theorem slowResume_pop (g b we : Nat) (rest : List (Nat × Nat)) (cache : List (
                          stack := dfsWePush b we (if (s.cell b).we ≠ 0 then (s.cell b).we else we) (s.cell b) rest,
                          pend := none, cache := cache, curSrc := src, curList := [], graph := graph } := rfl
 
-/-- the walk: from a stack, with no list in progress, the drained machine folds `slowStep` over what `dfsWeGo` lists -/
+/-- the walk: from a stack, with no list in progress, the drained machine folds `cdSlowStep` over what `dfsWeGo` lists -/
 theorem sl_stack : ∀ (f : Nat) (stk : List (Nat × Nat)), dfsWeFin s f stk → f ≤ s.trie.size + 1 →
     ∀ (graph : List NetRow) (cache : List (Nat × Nat)) (src fuel N : Nat),
       f * (s.links.size + 2) + 1 ≤ fuel → f * (s.links.size + 1) < N →
       slR s fuel N { out := out, auto := auto, started := true, stack := stk, pend := none, cache := cache,
                      curSrc := src, curList := [], graph := graph } =
-        .net ((s.dfsWeGo f stk).foldl (slowStep s out auto) (graph, cache)).1 := by
+        .net ((s.dfsWeGo f stk).foldl (cdSlowStep s out auto) (graph, cache)).1 := by
   intro f
   induction f with
   | zero =>
@@ -206,12 +206,12 @@ theorem sl_stack : ∀ (f : Nat) (stk : List (Nat × Nat)), dfsWeFin s f stk →
       generalize hcur : (if (s.cell b).we ≠ 0 then (s.cell b).we else we) = cur at hfin ih' ⊢
       generalize hhead : (if out then (s.cell b).out else (s.cell b).inn) = head
       by_cases hcond : ((s.cell b).flags.page && decide (head ≠ 0) && decide (cur ≠ 0)) = true
-      · have hstep : slowStep s out auto (graph, cache) (b, cur) =
-            (s.weighted head).foldl (slowInner s auto cur) (graph, dictSet cache b cur) := by
+      · have hstep : cdSlowStep s out auto (graph, cache) (b, cur) =
+            (s.weighted head).foldl (cdSlowInner s auto cur) (graph, dictSet cache b cur) := by
           simp only [Bool.and_eq_true, decide_eq_true_eq] at hcond
-          simp [slowStep, hhead, hcond.1.1, hcond.1.2, hcond.2]
+          simp [cdSlowStep, hhead, hcond.1.1, hcond.1.2, hcond.2]
         rw [hstep]
-        have hlen := weighted_length_le s head
+        have hlen := cd_weighted_length_le s head
         have hB : f * (s.links.size + 2) + 1 ≤ (s.trie.size + 2) * (s.links.size + 3) := by
           have h1 : f * (s.links.size + 2) ≤ (s.trie.size + 1) * (s.links.size + 2) := Nat.mul_le_mul_right _ (by omega)
           have h2 : (s.trie.size + 1) * (s.links.size + 2) + 1 ≤ (s.trie.size + 2) * (s.links.size + 3) := by
@@ -222,7 +222,7 @@ theorem sl_stack : ∀ (f : Nat) (stk : List (Nat × Nat)), dfsWeFin s f stk →
             omega
           omega
         have := sl_list s out auto (fun acc => Ans.net ((s.dfsWeGo f (dfsWePush b we cur (s.cell b) rest)).foldl
-            (slowStep s out auto) acc).1) (f * (s.links.size + 2)) (f * (s.links.size + 1)) hB rest
+            (cdSlowStep s out auto) acc).1) (f * (s.links.size + 2)) (f * (s.links.size + 1)) hB rest
             (some (b, we, cur, s.cell b)) cur
             (fun graph cache fuel N hf hN => by
               obtain ⟨g, rfl⟩ : ∃ g, fuel = g + 1 := ⟨fuel - 1, by omega⟩
@@ -231,9 +231,9 @@ theorem sl_stack : ∀ (f : Nat) (stk : List (Nat × Nat)), dfsWeFin s f stk →
             (s.weighted head) graph (dictSet cache b cur) k N (by omega) (by omega)
         rw [← this]
         simp only [slR, slowResume_pop, hcur, hhead, hcond, if_true]
-      · have hstep : slowStep s out auto (graph, cache) (b, cur) = (graph, cache) := by
+      · have hstep : cdSlowStep s out auto (graph, cache) (b, cur) = (graph, cache) := by
           simp only [Bool.and_eq_true, decide_eq_true_eq, not_and, Decidable.not_not] at hcond
-          simp only [slowStep, hhead]
+          simp only [cdSlowStep, hhead]
           by_cases hp : (s.cell b).flags.page = true
           · by_cases hh : head = 0
             · simp [hp, hh]
@@ -264,7 +264,7 @@ theorem netSlow_drain (hfin : s.trie.size ≤ 1 ∨ dfsWeFin s (s.trie.size + 1)
   obtain ⟨g, hg⟩ : ∃ g, slFuel s { out := out, auto := auto } = g + 1 :=
     ⟨slFuel s { out := out, auto := auto } - 1, by omega⟩
   rw [hg, sl_start]
-  simp only [State.ask, if_true, networkSlow_eq, dfsWe]
+  simp only [State.ask, if_true, cd_networkSlow_eq, dfsWe]
   by_cases hsz : s.trie.size ≤ 1
   · simp only [hsz, if_true]
     have := sl_stack s out auto 0 [] trivial (by omega) [] [] 0 (g + 1) N' (by simp) (by simp only [Nat.zero_mul]; omega)
